@@ -116,12 +116,21 @@ def run(ctx: Ctx) -> Result:
         ('push1 x0102 true', bytes([C['PUSH1'], 2, 1, 2, C['TRUE']])),
         ('op_push1 d2 x0102', bytes([C['PUSH1'], 2, 1, 2])),
         ('div_int d-10 mod_int x0005', bytes([C['DIV_INT'], 1, 0xf6, C['MOD_INT'], 2, 0, 5])),
+        # the empty and the one-character string literal are symbols like any other: what follows them is assembled too (fixed: F18)
+        ('read_cache s"" dup push s"zz"', bytes([C['READ_CACHE'], 0, C['DUP']]) + g.push_enc(b'zz')),
+        ("read_cache s'' dup push s'zz' verify", bytes([C['READ_CACHE'], 0, C['DUP']]) + g.push_enc(b'zz') + bytes([C['VERIFY']])),
+        ('read_cache s"" dup', bytes([C['READ_CACHE'], 0, C['DUP']])),
+        ('true write_cache s"" d1 dup push s"q"', bytes([C['TRUE'], C['WRITE_CACHE'], 0, 1, C['DUP']]) + g.push_enc(b'q')),
+        ('if { rcz s"" } else { push s"no" }', bytes([C['IF_ELSE'], 0, 2, C['READ_CACHE_SIZE'], 0, 0, 4]) + g.push_enc(b'no')),
+        ('push s"a" dup push s"zz" verify', g.push_enc(b'a') + bytes([C['DUP']]) + g.push_enc(b'zz') + bytes([C['VERIFY']])),
+        ('if { push s"y" } else { push s"no" }', bytes([C['IF_ELSE'], 0, 2]) + g.push_enc(b'y') + bytes([0, 4]) + g.push_enc(b'no')),
+        ('push s"" true', 'ERR:ValueError'),
     ]
     for rep in range(ctx.n(3, 10)):
         for src, want in sugar:
             res.note_case(('sugar', src, rep))
             got = comp(src)
-            if got != want: viol(src, want.hex(), got.hex() if isinstance(got, bytes) else got, 'sugar / macro / comptime')
+            if got != want: viol(src, want.hex() if isinstance(want, bytes) else want, got.hex() if isinstance(got, bytes) else got, 'sugar / macro / comptime')
     # (3b) string values: `s"..."` pushes exactly the UTF-8 bytes written between the quotes
     k8 = []
     def strcase(src, value, k8_class):
